@@ -82,6 +82,7 @@ type checkOpts struct {
 	timeout  int
 	jobs     int
 	noReplay bool
+	noEvidence bool
 	seed     int64
 }
 
@@ -96,6 +97,7 @@ func cmdCheck(argv []string) int {
 	timeout := fs.Int("timeout", 0, "per-obligation timeout (s)")
 	jobs := fs.Int("j", 8, "parallel obligations")
 	noReplay := fs.Bool("noreplay", false, "skip witness replay")
+	noEvidence := fs.Bool("noevidence", false, "do not write the evidence and replay files (selftest on a scratch copy)")
 	dbg := fs.Bool("panic", false, "do not recover engine panics")
 	var prop string
 	if len(argv) > 0 && !strings.HasPrefix(argv[0], "-") {
@@ -104,7 +106,7 @@ func cmdCheck(argv []string) int {
 	}
 	fs.Parse(argv)
 	debugPanics = *dbg
-	o := &checkOpts{prop: prop, tier: *tier, repo: *repo, verif: *verif, dump: *dump, verbose: *verbose, timeout: *timeout, jobs: *jobs, noReplay: *noReplay}
+	o := &checkOpts{prop: prop, tier: *tier, repo: *repo, verif: *verif, dump: *dump, verbose: *verbose, timeout: *timeout, jobs: *jobs, noReplay: *noReplay, noEvidence: *noEvidence}
 	if *only != "" {
 		o.only = regexp.MustCompile(*only)
 	}
@@ -460,7 +462,7 @@ func report(o *checkOpts, P *Program, reps []*oblReport, results []*FuncResult, 
 	}
 	os.MkdirAll(filepath.Join(o.verif, "evidence"), 0o755)
 	b, _ := json.MarshalIndent(ev, "", " ")
-	if o.only == nil {
+	if o.only == nil && !o.noEvidence {
 		os.WriteFile(filepath.Join(o.verif, "evidence", o.prop+".json"), b, 0o644)
 	}
 	fmt.Printf("govc %s: %d obligations, %d proved, %d failed, %d known findings, %d functions, load %.1fs, solvers %.1fs, wall %.1fs\n", o.prop, len(reps), proved, failed, len(known), nfuncs, loadS, solverS, time.Since(t0).Seconds())
